@@ -175,6 +175,14 @@ impl $name {
         self.call(format!("ERR:VAL?({n})"));
         Ok(ALL_ERRORS.iter().copied().find(|e| e.number() == n).unwrap_or(Error::Custom(n, "custom")))
     }
+    #[scpi(cmd = "[SOURce]:POWer")]
+    async fn power(&mut self, v: u32) -> Result<(), Error> { self.call(format!("SOUR:POW({v})")); Ok(()) }
+    #[scpi(cmd = "SOURce:POWer?")]
+    async fn power_q(&mut self) -> Result<u8, Error> { self.call("SOUR:POW?".into()); Ok(7) }
+    #[scpi(cmd = "TRIGger:[SEQuence]:DELay")]
+    async fn delay(&mut self, v: u8) -> Result<(), Error> { self.call(format!("TRIG:SEQ:DEL({v})")); Ok(()) }
+    #[scpi(cmd = "TRIGger:DELay?")]
+    async fn delay_q(&mut self) -> Result<u8, Error> { self.call("TRIG:DEL?".into()); Ok(8) }
     #[scpi(cmd = "MATH:SIZE?")]
     async fn size(&mut self, a: usize, b: isize) -> Result<(usize, isize), Error> { self.call(format!("MATH:SIZE?({a},{b})")); Ok((a, b)) }
 }
